@@ -46,6 +46,7 @@ func TestC17ValidatorSet(t *testing.T) {
 // every stake (and pending update) of a removed candidate must be frozen with its whole value,
 // due at the removal height + unbond period (rule c17-removed-stake-lost below).
 func TestC16CandidateRemoval(t *testing.T) {
+	defer checksDividedBy(3)() // 100-candidate worlds only
 	rapid.Check(t, func(t *rapid.T) { c17ValidatorSetCase(t, "TestC16CandidateRemoval", true) })
 }
 
